@@ -567,3 +567,36 @@ pub fn run_perm(a: &Args) {
     }
     out.write(&a.out, a.shards, "perm");
 }
+
+/// Engine `helpers`: create_parent_map, parallel_topo_sort, find_deferred and should_cache through the hook.
+pub fn run_helpers(a: &Args) {
+    let mut out = Out::new("From EB Require Import Corr.RunGraph.", "helper_case", &["helper_mismatches", "helper_spec_failures"]);
+    out.only = a.only;
+    let contracts: Vec<ContentAddress> = (0..2).map(|i| ContentAddress([0x10 + i as u8; 32])).collect();
+    for i in 0..a.count as u64 {
+        let mut rng = Rng::for_case(a.seed, 6, i);
+        let b = if rng.chance(1, 2) { gen_raw(&mut rng) } else { gen_dag(&mut rng, &contracts, &key_pool()) };
+        let p = &b.pred;
+        let n = p.nodes.len();
+        let seeds: Vec<usize> = (0..n).filter(|_| rng.chance(1, 5)).collect();
+        let is_seed = |node: &Node| -> bool { p.nodes.iter().position(|x| std::ptr::eq(x, node)).map(|ix| seeds.contains(&ix)).unwrap_or(false) };
+        let pm = chk::verif::parent_map(p);
+        let (pm_lit, pm_err, levels_lit, cached) = match &pm {
+            Ok(m) => {
+                let lv = chk::verif::topo_sort(p, m);
+                let lv_lit = match &lv { Ok(l) => format!("(Some {})", list_of(l, |x| zlist(x.iter().map(|v| *v as i64)))), Err(_) => "None".into() };
+                let def = chk::verif::deferred(p, is_seed);
+                let cached: Vec<String> = (0..n).map(|ix| coq_bool(chk::verif::cached(ix as u16, p, &def)).to_string()).collect();
+                (format!("(Some {})", list_of(&m.iter().collect::<Vec<_>>(), |(k, v)| format!("({}, {})", k, zlist(v.iter().map(|x| *x as i64))))), 0usize, lv_lit, cached)
+            }
+            Err(ix) => ("None".to_string(), *ix, "None".to_string(), vec![]),
+        };
+        // find_deferred calls node_edges(..).expect only for nodes it visits; it is total after the fix
+        let def = std::panic::catch_unwind(std::panic::AssertUnwindSafe(|| chk::verif::deferred(p, is_seed))).unwrap_or_else(|_| vec![u16::MAX]);
+        let lit = format!("Build_helper_case {} {} {} {} {} {} [{}]", coq_pred(p), zlist(seeds.iter().map(|x| *x as i64)), pm_lit, pm_err, levels_lit,
+            zlist(def.iter().map(|x| *x as i64)), cached.join("; "));
+        out.push(i, lit, json!({"nodes": n, "edges": p.edges, "edge_starts": p.nodes.iter().map(|x| x.edge_start).collect::<Vec<_>>(), "seeds": seeds, "valid": pm.is_ok()}), n >= 2);
+        out.bump(if pm.is_ok() { "valid_edges" } else { "invalid_edges" });
+    }
+    out.write(&a.out, a.shards, "helpers");
+}
